@@ -154,8 +154,8 @@ def engine_ksched(pid, tier, seed, res, max_n=None):
             continue
         for ri, run in enumerate(r["runs"]):
             base = dict(engine="ksched", case=case, sched_seed=r["sched_seed"], run_index=ri, choices=[x["choices"] for x in r["runs"][:ri + 1]])
-            if run["status"] == "hang":
-                res.hit("C09", "monitor", "call did not return (watchdog): " + str(run["broken"]), dict(base, kind="monitor"))
+            if run["status"] == "hang" or (run["broken"] and "spin" in run["broken"]):
+                res.hit("C09", "monitor", "call did not return / scheduler spins: " + str(run["broken"]), dict(base, kind="monitor"))
             if run["broken"]:
                 for p in SCHED_PROPS:
                     res.hit(p, "divergence", "controller could not drive the run: " + run["broken"], dict(base, kind="controller"))
@@ -196,6 +196,41 @@ def engine_ksched(pid, tier, seed, res, max_n=None):
                     props_, tag = attribute(seg)
                     for p in props_:
                         res.hit(p, "divergence", "K-sched: %s [%s]" % (seg["reason"], tag), dict(base, kind="divergence", tag=tag, verdict=seg["verdict"], labels=[l for l, _ in labels][:60]))
+    # search widening: the model rejected some execution but no monitor exhibited a failing input for
+    # this property yet -> more schedules (with many simultaneous completions) on the diverging cases
+    if any(h["prop"] == pid and h["kind"] == "divergence" for h in res.hits) and not any(h["prop"] == pid and h["kind"] == "monitor" for h in res.hits):
+        seen = []
+        for h in res.hits:
+            cse = (h.get("replay") or {}).get("case")
+            if h["prop"] == pid and h["kind"] == "divergence" and cse is not None and cse not in seen:
+                seen.append(cse)
+        tried = 0
+        variants = []
+        for cse in seen[:8]:
+            variants.append(cse)
+            v2 = json.loads(json.dumps(cse))
+            v2["maxc"] = 4
+            variants.append(v2)
+            v3 = json.loads(json.dumps(v2))
+            for a_ in v3["attrs"]:
+                if a_["resource"] == "main-thread" and rng.random() < 0.7:
+                    a_["resource"] = "thread"
+                a_["is_sequential"] = False
+            variants.append(v3)
+        for cse in variants:
+            for _ in range(25):
+                rec = ksched.run_case(cse, sched_seed=rng.random(), simultaneous=rng.choice([0.5, 0.8, 1.0]))
+                tried += 1
+                for ri, run in enumerate(rec["runs"]):
+                    base = dict(engine="ksched", case=cse, sched_seed=rec["sched_seed"], run_index=ri, choices=[x["choices"] for x in rec["runs"][:ri + 1]])
+                    if run["status"] == "hang" or (run["broken"] and "spin" in run["broken"]):
+                        res.hit("C09", "monitor", "call did not return / scheduler spins: " + str(run["broken"]), dict(base, kind="monitor"))
+                    for seg in run["segs"]:
+                        for prop, msg in seg.get("monitor", []):
+                            res.hit(prop, "monitor", msg, dict(base, kind="monitor"))
+            if any(h["prop"] == pid and h["kind"] == "monitor" for h in res.hits):
+                break
+        res.notes.append("search widened over %d extra schedules of %d diverging cases (and variants)" % (tried, len(seen[:8])))
     if not res.samples and records:
         for r in records:
             for run in r["runs"]:
